@@ -1151,6 +1151,223 @@ theorem wakeLoop_inv (W : World Node VH V) (ht : Ht) (q : Query)
       exact ⟨by rw [upd_ne _ _ this]; exact a, b, c⟩)
     exact ⟨m3, aw3, e3, i3, g1, by rw [g2]; simp, g3⟩
 
+/-! ### the completion handlers -/
+
+/-- the load leaves the slab, its waiter list leaves `io_waiters` -/
+theorem removeLoad_inv (W : World Node VH V) (ht : Ht) (m : Mux Node VH V) (aw : Nat → Option Query) (h : MInv W ht m aw)
+    (ud : Nat) (v : IoReq) (q : Query) (hg : m.slab.get ud = some v) (hni : ud ∉ m.inflight.map (·.1))
+    (hnl : ud ∉ m.idleLoads) :
+    ∃ slab, m.slab.remove ud = .ok (slab, v) ∧
+      MInv W ht { m with slab := slab, waiters := m.waiters.filter (fun e => e.1 ≠ q) } aw := by
+  obtain ⟨slab, e1, w1, g1, g2⟩ := Slab.remove_ok m.slab h.slabwf ud v hg
+  refine ⟨slab, e1, ⟨h.sys, ?_, ?_, h.idleN, h.idle, w1, ?_, h.inflN, ?_, h.idleLN, ?_⟩⟩
+  · exact List.Pairwise.sublist (List.Sublist.map _ (List.filter_sublist ..)) h.wkeys
+  · intro q' w' hqw
+    exact h.wmem q' w' (List.mem_filter.1 hqw).1
+  · intro si pid k sub hs
+    by_cases hsi : si = ud
+    · subst hsi; simp only at hs; rw [g1] at hs; cases hs
+    · simp only at hs
+      rw [g2 si hsi] at hs
+      exact h.merk si pid k sub hs
+  · intro u c hc
+    have hne : u ≠ ud := fun e => hni (by rw [← e]; exact List.mem_map.2 ⟨(u, c), hc, rfl⟩)
+    unfold InflOK
+    simp only
+    rw [g2 u hne]
+    exact h.infl u c hc
+  · intro si hs
+    have hne : si ≠ ud := fun e => hnl (e ▸ hs)
+    simp only
+    rw [g2 si hne]
+    exact h.idleL si hs
+
+theorem woken_ok {W : World Node VH V} {ht : Ht} {m : Mux Node VH V} {aw : Nat → Option Query} (h : MInv W ht m aw)
+    (q : Query) : ((m.waiters.lookup q).getD []).Nodup ∧
+      ∀ idx ∈ (m.waiters.lookup q).getD [], aw idx = some q ∧ m.processed ≤ idx ∧ idx < m.processed + m.reqs.length := by
+  cases hl : m.waiters.lookup q with
+  | none => simp
+  | some w => simpa using h.wmem q w (lookup_mem _ _ _ hl)
+
+theorem filter_nokey (ws : List (Query × List Nat)) (q : Query) : q ∉ (ws.filter (fun e => e.1 ≠ q)).map (·.1) := by
+  intro hm
+  obtain ⟨e, he, hq⟩ := List.mem_map.1 hm
+  have := (List.mem_filter.1 he).2
+  simp at this
+  exact this hq
+
+/-- **`handle_merkle_page_and_continue`** -/
+theorem handleMerkle_inv (W : World Node VH V) (hOK : W.OK) (ht : Ht) (m : Mux Node VH V) (aw : Nat → Option Query)
+    (h : MInv W ht m aw) (ud : Nat) (pid : PageId) (k : Nat) (hg : m.slab.get ud = some (.merkle pid k true))
+    (hni : ud ∉ m.inflight.map (·.1)) (page : MPage Node) (hd : W.env.disk.lookup pid = some page) :
+    ∃ m' aw', handleMerkle W.env m ud page = .ok m' ∧ MInv W ht m' aw' ∧ m'.processed = m.processed ∧
+      m'.reqs.length = m.reqs.length ∧ m'.maxInflight = m.maxInflight := by
+  obtain ⟨hpf, _⟩ := h.merk ud pid k true hg
+  have hnl : ud ∉ m.idleLoads := by
+    intro hm
+    obtain ⟨_, _, e⟩ := h.idleL ud hm
+    rw [hg] at e; cases e
+  obtain ⟨slab, e1, hm1⟩ := removeLoad_inv W ht m aw h ud _ (.page pid) hg hni hnl
+  obtain ⟨pgU, hU, hgood⟩ := hpf.good
+  have hpage : pgU = page := by rw [hpf.ud, hd] at hU; exact (Option.some.inj hU).symm
+  subst hpage
+  obtain ⟨_, m2, _⟩ := mem_lookup h.sys.mem pid
+  unfold handleMerkle
+  rw [e1]
+  simp only
+  obtain ⟨wn, wl⟩ := woken_ok h (.page pid)
+  have fin : ∀ cache', MemOK W cache' → ∃ m' aw',
+      wakeLoop (fun ps r => continueSeek W.env ps r pid pgU) (removeWaiters m.waiters (.page pid)).2
+        { m with slab := slab, cache := cache', ps := m.ps.insert pid pgU .persisted,
+                 waiters := (removeWaiters m.waiters (.page pid)).1 } = .ok m' ∧
+      MInv W ht m' aw' ∧ m'.processed = m.processed ∧ m'.reqs.length = m.reqs.length ∧ m'.maxInflight = m.maxInflight := by
+    intro cache' hmem'
+    have hm2 : MInv W ht { m with slab := slab, cache := cache', ps := m.ps.insert pid pgU .persisted,
+                                  waiters := (removeWaiters m.waiters (.page pid)).1 } aw := by
+      refine ⟨⟨psinv_insert h.sys.ps (hgood _) _, hmem', ?_⟩, hm1.wkeys, hm1.wmem, hm1.idleN, hm1.idle, hm1.slabwf,
+        hm1.merk, hm1.inflN, hm1.infl, hm1.idleLN, hm1.idleL⟩
+      intro x hx
+      exact reqOK_mono (ext_insert _ _ _ _) (h.sys.reqs x hx)
+    exact wakeLoop_inv W ht (.page pid) (fun ps r => continueSeek W.env ps r pid pgU) (by
+        intro s i r hs hi
+        have hr : ReqOK W s.ps r (some (.page pid)) := hs.reqs _ (List.mem_of_getElem? hi)
+        obtain ⟨hst, h6, h2, hC, _, _, _⟩ := awaiting_page hr
+        have hg' : PGood W s.ps (sextetsOf (r.key.take r.pos.depth)) pgU := by rw [← hC]; exact hgood s.ps
+        obtain ⟨ps', r', c1, _, _, c4, c5, c6, _⟩ := continueSeek_ok W hOK s.ps hs.ps r hr.1 hst h6 h2 pgU hg'
+        rw [← hC] at c1
+        exact ⟨ps', r', c1, sysinv_set hs c4 c5 hs.mem i c6⟩)
+      _ _ aw hm2 (filter_nokey _ _) wn wl
+  cases hca : m.cache.lookup pid with
+  | some pg =>
+    have : pg = pgU := by have := m2 hpf.ov pg hca; rw [hU] at this; exact (Option.some.inj this).symm
+    subst this
+    exact fin _ h.sys.mem
+  | none => exact fin _ (memOK_insert h.sys.mem hpf.ov hca hU)
+
+/-- **`handle_leaf_page_and_continue`** -/
+theorem handleLeaf_inv (W : World Node VH V) (hOK : W.OK) (ht : Ht) (m : Mux Node VH V) (aw : Nat → Option Query)
+    (h : MInv W ht m aw) (ud l : Nat) (hg : m.slab.get ud = some (.leaf l)) (hni : ud ∉ m.inflight.map (·.1)) :
+    ∃ m' aw', handleLeaf W.env m ud = .ok m' ∧ MInv W ht m' aw' ∧ m'.processed = m.processed ∧
+      m'.reqs.length = m.reqs.length ∧ m'.maxInflight = m.maxInflight := by
+  have hnl : ud ∉ m.idleLoads := by
+    intro hm
+    obtain ⟨_, _, e⟩ := h.idleL ud hm
+    rw [hg] at e; cases e
+  obtain ⟨slab, e1, hm1⟩ := removeLoad_inv W ht m aw h ud _ (.leaf l) hg hni hnl
+  unfold handleLeaf
+  rw [e1]
+  simp only
+  have hm2 : MInv W ht { m with slab := slab, waiters := (removeWaiters m.waiters (.leaf l)).1,
+                                leafCache := l :: m.leafCache } aw :=
+    ⟨hm1.sys, hm1.wkeys, hm1.wmem, hm1.idleN, hm1.idle, hm1.slabwf, hm1.merk, hm1.inflN, hm1.infl, hm1.idleLN, hm1.idleL⟩
+  obtain ⟨wn, wl⟩ := woken_ok h (.leaf l)
+  exact wakeLoop_inv W ht (.leaf l) (fun ps r => feedLeaf W.env ps r l) (by
+      intro s i r hs hi
+      obtain ⟨ps', r', c1, c2, _, _⟩ := feedLeaf_sys W hOK s hs i r l hi
+      exact ⟨ps', r', c1, c2⟩)
+    _ _ aw hm2 (filter_nokey _ _) wn wl
+
+theorem erase_notin : ∀ (l : List (Nat × Cmd)) (ud : Nat), (l.map (·.1)).Nodup → (∃ c, (ud, c) ∈ l) →
+    ud ∉ (l.eraseP (fun c => c.1 == ud)).map (·.1)
+  | [], ud, _, ⟨_, h⟩ => by cases h
+  | (u, c) :: rest, ud, hn, hm => by
+    simp only [List.map_cons] at hn
+    have hn' := List.nodup_cons.1 hn
+    by_cases hu : u = ud
+    · subst hu
+      rw [List.eraseP_cons]
+      simp only [beq_self_eq_true, cond_true]
+      exact hn'.1
+    · have hb : (u == ud) = false := by simpa using hu
+      rw [List.eraseP_cons]
+      simp only [hb, cond_false, List.map_cons, List.mem_cons, not_or]
+      refine ⟨fun e => hu e.symm, erase_notin rest ud hn'.2 ?_⟩
+      obtain ⟨c', hc'⟩ := hm
+      rcases List.mem_cons.1 hc' with h1 | h1
+      · cases h1; exact absurd rfl hu
+      · exact ⟨c', h1⟩
+
+/-- **`handle_completion`** for the read with user data `ud` -/
+theorem recv_inv (W : World Node VH V) (hOK : W.OK) (ht : Ht) (m : Mux Node VH V) (aw : Nat → Option Query)
+    (h : MInv W ht m aw) (ud : Nat) :
+    (∃ m' aw', recv W.env ht m ud = .ok m' ∧ MInv W ht m' aw' ∧ m'.processed = m.processed ∧
+      m'.reqs.length = m.reqs.length ∧ m'.maxInflight = m.maxInflight) ∨ recv W.env ht m ud = .err () := by
+  unfold recv
+  cases hf : m.inflight.find? (fun c => c.1 == ud) with
+  | none => exact .inr rfl
+  | some x =>
+    obtain ⟨u, cmd⟩ := x
+    have hmem := List.mem_of_find?_eq_some hf
+    have hu : u = ud := by simpa using List.find?_some hf
+    subst hu
+    simp only
+    have h0 : MInv W ht { m with inflight := m.inflight.eraseP (fun c => c.1 == u) } aw := recvErr_inv W ht m aw h u
+    have hni : u ∉ (m.inflight.eraseP (fun c => c.1 == u)).map (·.1) := erase_notin _ _ h.inflN ⟨cmd, hmem⟩
+    rcases h.infl u cmd hmem with ⟨pid, k, b, hg, hc, hk1, hb⟩ | ⟨l, hg, hc⟩
+    · rw [hg]
+      subst hc
+      simp only [Bool.not_true, Bool.false_eq_true, if_false]
+      obtain ⟨hpf, j, bj, hj, hlab, hbefore, hk⟩ := h.merk u pid k true hg
+      simp only [if_true] at hk
+      by_cases hhit : (ht.label b == some pid) = true
+      · rw [if_pos hhit]
+        obtain ⟨pgU, hU, _⟩ := hpf.good
+        have hd : W.env.disk.lookup pid = some pgU := by rw [← hpf.ud]; exact hU
+        rw [hd]
+        simp only
+        exact .inl (handleMerkle_inv W hOK ht _ aw h0 u pid k hg hni pgU hd)
+      · rw [if_neg hhit]
+        left
+        have hlabne : ht.label b ≠ some pid := by simpa using hhit
+        have hkj : k ≤ j := by
+          by_cases e : k - 1 = j
+          · rw [e, hj] at hb
+            cases hb
+            exact absurd hlab hlabne
+          · omega
+        obtain ⟨p1, p2, p3⟩ := Slab.put_ok m.slab h.slabwf u _ (.merkle pid k false) hg
+        have hnl : u ∉ m.idleLoads := by
+          intro hm
+          obtain ⟨_, _, e⟩ := h.idleL u hm
+          rw [hg] at e; cases e
+        refine ⟨_, aw, rfl, ?_, rfl, rfl, rfl⟩
+        refine ⟨h0.sys, h0.wkeys, h0.wmem, h0.idleN, h0.idle, p1, ?_, h0.inflN, ?_, ?_, ?_⟩
+        · intro si pid' k' sub' hs
+          by_cases hsi : si = u
+          · subst hsi
+            simp only at hs
+            rw [p2] at hs
+            cases hs
+            exact ⟨hpf, j, bj, hj, hlab, hbefore, by simpa using hkj⟩
+          · simp only at hs
+            rw [p3 si hsi] at hs
+            exact h.merk si pid' k' sub' hs
+        · intro u' c hc
+          have hne : u' ≠ u := fun e => hni (List.mem_map.2 ⟨(u', c), hc, e⟩)
+          unfold InflOK
+          simp only
+          rw [p3 u' hne]
+          exact h0.infl u' c hc
+        · simp only
+          rw [List.nodup_append]
+          refine ⟨h.idleLN, by simp, ?_⟩
+          intro a ha b' hb'
+          have : b' = u := by simpa using hb'
+          subst this
+          exact fun e => hnl (e ▸ ha)
+        · intro si hs
+          simp only at hs ⊢
+          rcases List.mem_append.1 hs with h3 | h3
+          · have hne : si ≠ u := fun e => hnl (e ▸ h3)
+            rw [p3 si hne]
+            exact h.idleL si h3
+          · have : si = u := by simpa using h3
+            subst this
+            exact ⟨pid, k, p2⟩
+    · rw [hg]
+      simp only
+      exact .inl (handleLeaf_inv W hOK ht _ aw h0 u l hg hni)
+
 end inv
 
 end Nomt.Seeker
